@@ -43,6 +43,11 @@ type Step struct {
 	// EagerReuse (send, only with Script.WriteLagUs > 0): as soon as the answer to one of this step's calls has
 	// arrived, the peer sends a ping re-using that id, while the server's Write has not yet returned.
 	EagerReuse bool `json:"eager_reuse,omitempty"`
+	// qcancel: a roots/list_changed notification whose handler is parked holds the dispatch queue; Queued calls
+	// (1-4, fresh ids) arrive behind it; those whose bit is set in Cancel are cancelled by the peer while they are
+	// still waiting; then the handler is let go. Every one of the calls is owed exactly one response.
+	Queued int `json:"queued,omitempty"`
+	Cancel int `json:"cancel,omitempty"`
 }
 
 type Script struct {
@@ -118,6 +123,10 @@ func genScript(rt *rapid.T, transport string) Script {
 	for i := 0; i < n; i++ {
 		if rapid.IntRange(0, 4).Draw(rt, "steptype") == 0 {
 			s.Steps = append(s.Steps, Step{Kind: "release", Release: rapid.IntRange(0, 5).Draw(rt, "rel")})
+			continue
+		}
+		if transport == "ndjson" && rapid.IntRange(0, 11).Draw(rt, "qcancel") == 0 {
+			s.Steps = append(s.Steps, Step{Kind: "qcancel", Queued: rapid.IntRange(1, 4).Draw(rt, "queued"), Cancel: rapid.IntRange(0, 15).Draw(rt, "cancel_mask")})
 			continue
 		}
 		k := 1
@@ -330,6 +339,7 @@ func (e Env) expectation0() expect {
 // ---- server under test ----
 
 type gates struct {
+	block   atomic.Int64 // gate the next roots/list_changed handler parks on (0: it returns at once)
 	mu      sync.Mutex
 	waiting map[int]chan struct{} // parked handlers by their unique gate number
 	opened  map[int]bool
@@ -375,6 +385,11 @@ func newServer(g *gates) *mcp.Server {
 	server := mcp.NewServer(&mcp.Implementation{Name: "srv", Version: "1"}, &mcp.ServerOptions{
 		CompletionHandler: func(context.Context, *mcp.CompleteRequest) (*mcp.CompleteResult, error) {
 			return &mcp.CompleteResult{}, nil
+		},
+		RootsListChangedHandler: func(ctx context.Context, _ *mcp.RootsListChangedRequest) {
+			if n := g.block.Swap(0); n > 0 {
+				g.park(ctx, int(n))
+			}
 		},
 	})
 	mcp.AddTool(server, &mcp.Tool{Name: "fast"}, func(ctx context.Context, req *mcp.CallToolRequest, in map[string]any) (*mcp.CallToolResult, any, error) {
@@ -719,6 +734,45 @@ func runNDJSON(s Script) (res vt.Result) {
 			g.release(parked[k].env.Gate)
 			settle()
 			if !quiescentInvariant(i, "release") {
+				return finish(res, s, &desc, nt)
+			}
+		case "qcancel":
+			gateSeq++
+			hold := gateSeq
+			g.block.Store(int64(hold))
+			peer.Send(`{"jsonrpc":"2.0","method":"notifications/roots/list_changed"}`)
+			synctest.Wait()
+			var queued []*pending
+			for k := 0; k < st.Queued; k++ {
+				id := freshID()
+				m := []string{"ping", "tools/list", "tools/call:fast"}[k%3]
+				e := Env{ID: id, Method: m, Params: "valid"}
+				q := &pending{env: e, exp: expect{response: true, class: "queued_behind_a_notification"}, tok: id, batch: -1}
+				if st.Cancel&(1<<k) != 0 {
+					q.exp.class = "cancelled_while_queued"
+				}
+				queued = append(queued, q)
+				pend = append(pend, q)
+				inflight[canonical(id)] = true
+				peer.Send(e.wire())
+			}
+			synctest.Wait()
+			for _, q := range queued {
+				if q.exp.class == "cancelled_while_queued" {
+					peer.Send(`{"jsonrpc":"2.0","method":"notifications/cancelled","params":{"requestId":` + q.tok + `}}`)
+					nt = true
+				}
+			}
+			synctest.Wait()
+			if !check(i, "calls queued behind a parked notification handler") {
+				return finish(res, s, &desc, nt)
+			}
+			g.release(hold)
+			g.block.Store(0)
+			fmt.Fprintf(&desc, "qcancel/%d/%d;", st.Queued, st.Cancel&(1<<st.Queued-1))
+			res.Class("calls_queued_behind_a_parked_notification_handler")
+			settle()
+			if !quiescentInvariant(i, "queue let go") {
 				return finish(res, s, &desc, nt)
 			}
 		default:
